@@ -6,6 +6,10 @@ _CLAUSES = ['phase-times', 'start-position', 'start-velocity', 'end-position', '
 _BELL_ONLY = ['start-acceleration', 'end-acceleration', 'acceleration-continuity', 'acceleration-limit', 'jerk-limit',
               'velocity-step-exceeds-acceleration-limit', 'acceleration-step-exceeds-jerk-limit']
 
+_BRANCHES = ['trap.branch.cruise', 'trap.branch.accel-only', 'trap.branch.decel-only', 'trap.branch.accel-decel',
+             'bell.branch.cruise', 'bell.branch.nocruise-amax', 'bell.branch.nocruise-reduced-acceleration',
+             'bell.branch.decel-only', 'bell.branch.accel-only']
+
 SPEC = dict(
     harness=['h_traj.c'],
     level='exploration',
@@ -19,10 +23,8 @@ SPEC = dict(
          'peak velocity = vm, |v0| = vm, |v1| = vm, bell: am reached, -am reached) combinations with at least one fully checked profile '
          '- NOT the number of requests.',
     exhaustive={'quick': None, 'thorough': None},
-    require=['trap.judged', 'bell.judged',
-             'trap.branch.cruise', 'trap.branch.accel-only', 'trap.branch.decel-only', 'trap.branch.accel-decel',
-             'bell.branch.cruise', 'bell.branch.nocruise-amax', 'bell.branch.nocruise-reduced-acceleration',
-             'bell.branch.decel-only', 'bell.branch.accel-only']
+    require=['trap.judged', 'bell.judged']
+            + [b + d for b in _BRANCHES for d in ('', '.forward', '.reversed')]
             + ['trap.' + c for c in _CLAUSES] + ['bell.' + c for c in _CLAUSES + _BELL_ONLY],
     cov_files=['trajtrap.c', 'trajbell.c'],
     cov_cases=200, cov_funcs=r'^a_traj(trap|bell)_',
